@@ -181,6 +181,45 @@ theorem lookup_map (l : List Int) (v : List XVal) (f : XVal → XVal) (t : Int) 
       · rfl
       · exact ih v
 
+/-- looking a stamp up in a common prefix of both lists -/
+theorem lookup_take (k : Nat) (a : List Int) (b : List XVal) (t : Int) (h : t ∈ a.take k) :
+    lookupAt (a.take k) (b.take k) t = lookupAt a b t := by
+  induction a generalizing k b with
+  | nil => simp at h
+  | cons y l ih =>
+    cases k with
+    | zero => simp at h
+    | succ k =>
+      cases b with
+      | nil => simp [lookupAt]
+      | cons v vs =>
+        simp only [List.take_succ_cons, lookupAt]
+        by_cases hy : y = t
+        · simp [hy]
+        · rw [if_neg hy, if_neg hy]
+          simp only [List.take_succ_cons, List.mem_cons] at h
+          rcases h with rfl | h
+          · exact absurd rfl hy
+          · exact ih k vs h
+
+theorem inc_take (l : List Int) (h : Inc l) (k : Nat) : Inc (l.take k) :=
+  List.Pairwise.sublist (List.take_sublist k l) h
+
+/-- on a strictly increasing list the positions of members are ordered like the members -/
+theorem bisect_mono (l : List Int) (h : Inc l) (x y : Int) (hx : x ∈ l) (hy : y ∈ l) (hxy : x ≤ y) :
+    bisectLeft l x ≤ bisectLeft l y := by
+  by_contra hlt
+  have hlt' : bisectLeft l y < bisectLeft l x := Nat.lt_of_not_le hlt
+  have hbx := bisect_lt_length l x hx
+  have hby := bisect_lt_length l y hy
+  have gx := get_bisect l h x hx
+  have gy := get_bisect l h y hy
+  rw [List.getElem?_eq_getElem hbx] at gx
+  rw [List.getElem?_eq_getElem hby] at gy
+  have := (List.pairwise_iff_getElem.1 h) _ _ hby hbx hlt'
+  rw [Option.some.inj gx, Option.some.inj gy] at this
+  omega
+
 /-- looking a later stamp up in the common tail of both lists -/
 theorem lookup_drop (l : List Int) (h : Inc l) (v : List XVal) (k : Nat) (t : Int)
     (ht : t ∈ l.drop k) : lookupAt (l.drop k) (v.drop k) t = lookupAt l v t := by
